@@ -123,8 +123,8 @@ def rule_pairing(run):
             if not ok and f"{binding}@{s.func.qualname}" in table:
                 continue  # verified by F-STATE.kinds
             if ok and status == "boundary":
-                allowed = set(table.get("boundary_guards:" + binding, {}).get("guards", []))
-                extra = sorted(set(pairing.boundary_guards(binding)) - allowed)
+                allowed = list(table.get("boundary_guards:" + binding, {}).get("guards", []))
+                extra = sorted({str(g) for g in pairing.boundary_guards(binding) if not any(g == a for a in allowed)})
                 if extra:
                     ok = False
                     how = f"the compile-boundary restore is conditional on: {extra}"
